@@ -5,7 +5,7 @@ use std::collections::BTreeMap;
 use std::fmt;
 use std::sync::{Arc, Mutex};
 
-pub type Key = u16;
+pub type Key = u32;
 pub type EV = u32;
 /// An edge as the oracles see it: (source key, target key, value).
 pub type Tri = (Key, Key, EV);
